@@ -14,7 +14,9 @@ CLAIMED = {
  "C02": ("proof", "Per-card: every plurality / super-majority assorter lambda the repository builds is executed symbolically on a fully symbolic "
          "card (any subset of contests/candidates present, integer-encoded marks) and proved equal to (w-l+1)/2 resp. w/(2f)|1/2, in range, with the "
          "right captured pair; lemma (unbounded n, induction on ghost sums): mean > 1/2 <=> winner has more votes / share > f; margin from tally = "
-         "2 mean - 1. Contest.tally and Assorter.mean code: bounded lists (n <= 3).",
+         "2 mean - 1 (super-majority: stated from the property, which exposed and repaired defect F14). Unbounded number of cards: Assorter.mean / sum, "
+         "Contest.tally (counter-loop summary). Structure-bounded: make_all_assertions (k winners, super-majority), find_margins_from_tally, tally / "
+         "mean on lists n <= 3. Native stand-in: assorters on every small collection incl. the tally margins.",
          "marks are integers (any numeric encoding), non-numeric encodings not modelled; candidate sets of the scripts are fixed (5 / 3 names)", "§4.C02"),
  "C03": ("other", "Per-pair posts of Assorter.overstatement and Assertion.overstatement_assorter proved for fully symbolic (MVR, CVR) pairs with an "
          "interface-contracted assorter; population identity proved as a lemma over ghost sums for unbounded n; pool means / margins / "
@@ -33,7 +35,8 @@ CLAIMED = {
  "C06": ("other", "Range 0 <= B <= 2/(2-v/u) and u proved per symbolic pair; mvrs_to_data proved for an UNBOUNDED number of sampled cards (symbolic record "
          "lists: a card contributes iff no style information or its CVR lists the contest and its sample number is within the threshold; each "
          "value = B(mvr_i, cvr_i) in [0,u]; polling: assort(mvr_i) in [0,u_assorter]) and, kept, for lists of <= 3 symbolic pairs (all presence patterns); set_p_values proved to install u before each test call for bounded contest/assertion shapes; "
-         "IRV assorter values in {0,1/2,1} (C14 scripts).", "list length and contest/assertion shapes bounded", "§4.C06"),
+         "IRV assorter values in {0,1/2,1} (C14 scripts); set_all_margins_from_cvrs installs, per assertion, the bound that goes with that "
+         "assertion's own margin (2 contests x 2 assertions, symbolic).", "contest/assertion shapes bounded where said", "§4.C06"),
  "C07": ('other', "UNBOUNDED (symbolic number of cards, 2 contests): consistent_sampling's while loop proved by an inductive invariant on the real body "
          "(per-contest count = min(n_c, cards of c so far), threshold = sample number of c's n_c-th card, the p-th selected card is the p-th card "
          "that lists a contest whose first n_c cards are incomplete, position advances by one, no IndexError given n_c <= cards listing c); "
@@ -61,7 +64,9 @@ CLAIMED = {
          "Known finding K5 (continuation).", "continuation and multi-round p-values bounded", "§4.C10"),
  "C11": ("proof", "For symbolic n, N, u, t, parameters: history length n, every entry in [0,1] and not NaN, p in [0,1], p = min history (random order) "
          "or last entry, for alpha/betting (under the estimator/bet interface), Kaplan-Markov, Kaplan-Wald, Kaplan-Kolmogorov (padded regime), SPRT "
-         "(inside regime); known findings K1,K3,K4,K9 recorded with replayed witnesses.",
+         "(inside regime); the constructor stores every argument (random_order included) and binds the requested test; known findings K1,K3,K4,K9 "
+         "recorded with replayed witnesses. Native stand-ins: integer-typed samples, and every test built through the constructor on every small "
+         "sample over {0,u/2,u} against the published products (engine-independent).",
          "exact-real float model (no rounding/overflow); numpy axioms incl. np.max contract", "§4.C11"),
  "C12": ("proof", "Each history entry of every test equals the published product (stated over the input's partial sums, not the code's), with the "
          "boundary conventions in priority order, for symbolic n; ALPHA==betting under eta = lam_to_eta(lam, mu) using the real conversion "
